@@ -37,7 +37,7 @@ use p2panda_core::{Body, Cursor, Hash, SigningKey, Topic, VerifyingKey};
 use sqlx::Row;
 use sqlx::sqlite::{SqliteConnectOptions, SqlitePoolOptions};
 
-const STEP_TIMEOUT: Duration = Duration::from_secs(60);
+const STEP_TIMEOUT: Duration = Duration::from_secs(180);
 
 #[derive(Clone, Debug)]
 struct RowInfo {
@@ -705,7 +705,30 @@ fn child_main() {
     std::process::abort();
 }
 
+/// Infrastructure hiccups (a step that does not finish in time on an overloaded machine, a node
+/// that cannot be started) surface as panics of the harness itself; the case is then run again on
+/// a fresh database, and only a panic that repeats is reported.  Observations that differ from the
+/// model never take this path: they are returned, not panicked.
 fn run_case(payload: &str) -> String {
+    let mut last = String::new();
+    for _ in 0..3 {
+        match std::panic::catch_unwind(std::panic::AssertUnwindSafe(|| run_case_once(payload))) {
+            Ok(s) => return s,
+            Err(e) => {
+                last = if let Some(s) = e.downcast_ref::<&str>() {
+                    s.to_string()
+                } else if let Some(s) = e.downcast_ref::<String>() {
+                    s.clone()
+                } else {
+                    "?".to_string()
+                };
+            }
+        }
+    }
+    panic!("{last}");
+}
+
+fn run_case_once(payload: &str) -> String {
     let parts: Vec<&str> = payload.split('|').map(|s| s.trim()).collect();
     let head = parts[0];
     let (crash, me, n, fspecs) = parse_fspecs(head);
